@@ -124,6 +124,24 @@ type c19Inst struct {
 	db    *DBV2
 	h     *Handler
 	clock *vmetaClock
+	// restart family
+	opt    Options
+	dbFile string   // the SQLite file the running instance is opened on
+	gen    int      // files created so far (fresh files and snapshots get a new name each)
+	snap   *c19Snap // the snapshot taken by the last snapshot operation, until a restart consumes it
+}
+
+// c19Snap is a snapshot of the database file (Engine.Backup) and, for the state key, what it holds.
+type c19Snap struct {
+	file  string
+	lines []string // mapping listing
+	seq   int64
+	flood []c19FloodRow
+}
+
+type c19FloodRow struct {
+	name, class string // class: SQLite storage class of the key
+	t, c        int64
 }
 
 func c19Open(cfg c19Config) (*c19Inst, error) {
@@ -133,23 +151,83 @@ func c19Open(cfg c19Config) (*c19Inst, error) {
 	}
 	clock := &vmetaClock{}
 	clock.Set(c19T0 + cfg.phase)
-	db, err := vmetaOpen(dir, "db", true, Options{MaxBudget: cfg.maxBudget, BudgetBonus: cfg.bonus, StepSec: c19StepSec, GlobalBudget: cfg.global, Now: clock.Now})
+	opt := Options{MaxBudget: cfg.maxBudget, BudgetBonus: cfg.bonus, StepSec: c19StepSec, GlobalBudget: cfg.global, Now: clock.Now}
+	db, err := vmetaOpen(dir, "db", true, opt)
 	if err != nil {
 		os.RemoveAll(dir)
 		return nil, err
 	}
-	h := &Handler{ // as NewHandler builds it, minus the process-global statshouse measurement callback
+	return &c19Inst{dir: dir, db: db, h: c19Handler(db), clock: clock, opt: opt, dbFile: "db"}, nil
+}
+
+func c19Handler(db *DBV2) *Handler {
+	return &Handler{ // as NewHandler builds it, minus the process-global statshouse measurement callback
 		db:                db,
 		getJournalClients: &GetJournalClients{clients: map[rpc.LongpollHandle]tlmetadata.GetJournalnew{}},
 		getMappingClients: &GetMappingClients{clients: map[rpc.LongpollHandle]tlmetadata.GetNewMappings{}},
 		log:               func(s string, args ...interface{}) {},
 	}
-	return &c19Inst{dir: dir, db: db, h: h, clock: clock}, nil
 }
 
 func (x *c19Inst) close() {
-	_ = vmetaClose(x.db)
+	if x.db != nil {
+		_ = vmetaClose(x.db)
+	}
 	os.RemoveAll(x.dir)
+}
+
+// restartOn ends the running instance the orderly way (Close commits the open SQLite transaction and
+// shuts the binlog down) and starts a new one on dbFile with the same binlog directory: OpenDB replays
+// the binlog from the offset stored in that file (a file that does not exist yet: from the beginning).
+// The clock is the outside world's and keeps its value; the in-memory state of DBV2 is that of a new
+// process.
+func (x *c19Inst) restartOn(dbFile string) error {
+	db := x.db
+	x.db = nil
+	if err := vmetaClose(db); err != nil {
+		return fmt.Errorf("close: %w", err)
+	}
+	db, err := vmetaOpen(x.dir, dbFile, false, x.opt)
+	if err != nil {
+		return fmt.Errorf("open %s: %w", dbFile, err)
+	}
+	x.db, x.h, x.dbFile = db, c19Handler(db), dbFile
+	return nil
+}
+
+// dbState reads what no API shows: the AUTOINCREMENT counter and the flood rows, with the storage class
+// of the key (SQLite never equates a TEXT with a BLOB value, so two rows "m1" can exist side by side
+// and only one of them is the one a given statement finds).
+func (x *c19Inst) dbState() (seq int64, flood []c19FloodRow, err error) {
+	err = x.db.eng.Do(context.Background(), "c19_key", func(conn sqlite.Conn, cache []byte) ([]byte, error) {
+		rows := conn.Query("c19_seq", "SELECT seq FROM sqlite_sequence WHERE name = 'mappings'")
+		if rows.Next() {
+			seq, _ = rows.ColumnInt64(0)
+		}
+		if rows.Error() != nil {
+			return cache, rows.Error()
+		}
+		rows = conn.Query("c19_flood", "SELECT metric_name, typeof(metric_name), last_time_update, count_free FROM flood_limits ORDER BY 2, 1")
+		for rows.Next() {
+			var r c19FloodRow
+			r.name, _ = rows.ColumnBlobString(0)
+			r.class, _ = rows.ColumnBlobString(1)
+			r.t, _ = rows.ColumnInt64(2)
+			r.c, _ = rows.ColumnInt64(3)
+			flood = append(flood, r)
+		}
+		return cache, rows.Error()
+	})
+	return
+}
+
+// c19FloodKey renders flood rows for the state key: times relative to the current step boundary.
+func c19FloodKey(rows []c19FloodRow, now int64) []string {
+	out := make([]string, len(rows))
+	for i, r := range rows {
+		out[i] = fmt.Sprintf("%s/%s:%d:%d", r.name, r.class, now-now%c19StepSec-r.t, r.c)
+	}
+	return out
 }
 
 func (x *c19Inst) getOrCreate(metric, key string) (tlmetadata.GetMappingResponse, error) {
@@ -218,6 +296,9 @@ func (x *c19Inst) realListing() (lines []string, byID map[int32]string, bad stri
 type c19Op struct {
 	name string
 	do   func(x *c19Inst, m *c19Model) (sig, desc string, nontrivial bool)
+	// enabled (optional): whether the operation can be issued in the state reached
+	enabled func(x *c19Inst) bool
+	restart bool // the operation replaces the running instance
 }
 
 func c19GetOrCreate(metric, key string) c19Op {
@@ -410,6 +491,114 @@ func c19FloodOps() []c19Op {
 	}, c19FloodOnlyOps()...)
 }
 
+// ---------- restart family ----------
+//
+// A restart replaces the running instance by a new one over the same binlog. The statement's clauses
+// speak about the service's answers over time, not about one process: the bijection and the token
+// bucket of the reference are untouched by a restart (no clock movement, no request), so the
+// reference does nothing and the history simply continues on the new instance. Three ways of getting
+// the new instance's SQLite state, i.e. every mix of "rows written by the live path" and "rows
+// written by the binlog replay" the service can be in:
+//
+//	restart(fresh file):  everything is rebuilt by replaying the whole binlog (new replica, start
+//	                      without a snapshot);
+//	restart(same file):   nothing is replayed (Close committed everything);
+//	snapshot + restart(from snapshot): the state at the snapshot was written by the live path (or by an
+//	                      earlier replay), the requests after it are replayed on top (start from a
+//	                      backup; also the shape of a crash before the periodic SQLite commit).
+
+func c19RestartErr(hist string, err error) (string, string, bool) {
+	return "C19:restart-fails", fmt.Sprintf("%s: %v", hist, err), true
+}
+
+func c19RestartFresh() c19Op {
+	return c19Op{name: "restart(fresh file, whole binlog replayed)", restart: true, do: func(x *c19Inst, m *c19Model) (string, string, bool) {
+		x.gen++
+		if err := x.restartOn(fmt.Sprintf("db_r%d", x.gen)); err != nil {
+			return c19RestartErr("restart on a fresh file", err)
+		}
+		return "", "", len(m.flood) > 0
+	}}
+}
+
+func c19RestartSame() c19Op {
+	return c19Op{name: "restart(same file)", restart: true, do: func(x *c19Inst, m *c19Model) (string, string, bool) {
+		if err := x.restartOn(x.dbFile); err != nil {
+			return c19RestartErr("restart on the same file", err)
+		}
+		return "", "", len(m.flood) > 0
+	}}
+}
+
+// c19Snapshot takes a snapshot the way the service does (forced commit + Engine.Backup). One snapshot is
+// kept: a new one replaces the old one, a restart from it consumes it.
+func c19Snapshot() c19Op {
+	return c19Op{name: "snapshot", do: func(x *c19Inst, m *c19Model) (string, string, bool) {
+		x.gen++
+		file, err := vmetaSnapshot(x.db, x.dir, fmt.Sprintf("snap%d_", x.gen))
+		if err != nil {
+			return "C19:unexpected-error", fmt.Sprintf("snapshot: %v", err), false
+		}
+		sn := &c19Snap{file: file}
+		var bad string
+		if sn.lines, _, bad = x.realListing(); bad != "" {
+			return "C19:not-a-bijection", bad, false
+		}
+		if sn.seq, sn.flood, err = x.dbState(); err != nil {
+			return "C19:unexpected-error", fmt.Sprintf("snapshot: %v", err), false
+		}
+		x.snap = sn
+		return "", "", false
+	}}
+}
+
+func c19RestartFromSnapshot() c19Op {
+	return c19Op{name: "restart(from the snapshot, binlog tail replayed)", restart: true,
+		enabled: func(x *c19Inst) bool { return x.snap != nil },
+		do: func(x *c19Inst, m *c19Model) (string, string, bool) {
+			file := x.snap.file
+			x.snap = nil
+			if err := x.restartOn(file); err != nil {
+				return c19RestartErr("restart from the snapshot", err)
+			}
+			return "", "", len(m.flood) > 0
+		}}
+}
+
+// c19RestartOps: creations for two metrics and whole steps (resets are left out: ResetFlood writes no
+// binlog event, so a rebuilt instance does not have them - that is C16's listed finding
+// C16:reset-flood-not-replayed, not this family's subject), plus the restart operations.
+func c19RestartOps() []c19Op {
+	return []c19Op{
+		c19GetOrCreate("m1", "k1"),
+		c19GetOrCreate("m1", "k2"),
+		c19GetOrCreate("m1", "k3"),
+		c19GetOrCreate("m2", "k5"),
+		c19Clock(c19StepSec),
+		c19RestartFresh(),
+		c19RestartSame(),
+		c19Snapshot(),
+		c19RestartFromSnapshot(),
+	}
+}
+
+// c19RestartBijectionOps: the bijection clauses across restarts (ids stay, deleted ids stay retired,
+// explicit overwrites stay) - creation, overwrite and deletion with the rebuilding restarts.
+func c19RestartBijectionOps() []c19Op {
+	return []c19Op{
+		c19GetOrCreate("m1", "k1"),
+		c19GetOrCreate("m1", "k2"),
+		c19GetOrCreate("m2", "k1"),
+		c19Put([]string{"k1"}, []int32{5}),
+		c19Put([]string{"k3"}, []int32{1}),
+		c19Delete([]int32{1}),
+		c19Delete([]int32{2, 5}),
+		c19RestartFresh(),
+		c19Snapshot(),
+		c19RestartFromSnapshot(),
+	}
+}
+
 type c19Explorer struct {
 	cfg c19Config
 	ops []c19Op
@@ -439,11 +628,27 @@ func (ex *c19Explorer) run(hist []int) mc.StepResult {
 			Detail: map[string]any{"config": ex.cfg.name, "history": ex.names(hist), "ops": hist}}}
 	}
 	nontrivial := false
+	restarted := false
 	for i, o := range hist {
+		if en := ex.ops[o].enabled; en != nil && !en(x) {
+			if i != len(hist)-1 {
+				ex.rep.Infra(fmt.Sprintf("history %v: operation %d of an explored prefix is not enabled (nondeterminism)", ex.names(hist), i+1))
+			}
+			return mc.StepResult{Applicable: false}
+		}
 		sig, desc, nt := ex.ops[o].do(x, m)
+		if sig == "C19:restart-fails" && !strings.Contains(desc, "can't apply binlog event") && !strings.Contains(desc, "constraint") {
+			// not a replay failure (descriptor limit, disk full, ...): infrastructure, never a verdict
+			ex.rep.Infra(fmt.Sprintf("history %v: %s", ex.names(hist), desc))
+			return mc.StepResult{Applicable: false}
+		}
+		if sig == "C19:created-beyond-flood-limit" && restarted {
+			sig, desc = sig+"-after-restart", desc+"; the instance was restarted earlier in the history (a restart neither moves the clock nor grants budget)"
+		}
 		if sig != "" {
 			return viol(sig, desc)
 		}
+		restarted = restarted || ex.ops[o].restart
 		if i == len(hist)-1 {
 			nontrivial = nt
 		}
@@ -483,29 +688,12 @@ func (ex *c19Explorer) run(hist []int) mc.StepResult {
 	now := x.clock.Get()
 	var sb strings.Builder
 	sb.WriteString(strings.Join(lines, ";"))
-	var seq int64
-	var flood []string
-	err = x.db.eng.Do(ctx, "c19_key", func(conn sqlite.Conn, cache []byte) ([]byte, error) {
-		rows := conn.Query("c19_seq", "SELECT seq FROM sqlite_sequence WHERE name = 'mappings'")
-		if rows.Next() {
-			seq, _ = rows.ColumnInt64(0)
-		}
-		if rows.Error() != nil {
-			return cache, rows.Error()
-		}
-		rows = conn.Query("c19_flood", "SELECT metric_name, last_time_update, count_free FROM flood_limits ORDER BY metric_name")
-		for rows.Next() {
-			name, _ := rows.ColumnBlobString(0)
-			t, _ := rows.ColumnInt64(1)
-			c, _ := rows.ColumnInt64(2)
-			flood = append(flood, fmt.Sprintf("%s:%d:%d", name, now-now%c19StepSec-t, c))
-		}
-		return cache, rows.Error()
-	})
+	seq, floodRows, err := x.dbState()
 	if err != nil {
 		ex.rep.Infra(fmt.Sprintf("history %v: key query: %v", ex.names(hist), err))
 		return mc.StepResult{Applicable: false}
 	}
+	flood := c19FloodKey(floodRows, now)
 	fmt.Fprintf(&sb, "|seq=%d|flood=%v|last=%d|phase=%d|created=%d|deleted=", seq, flood, x.db.lastMappingIDToInsert, now%c19StepSec, min(m.creations, ex.cfg.global+1))
 	del := make([]int, 0, len(m.deleted))
 	for id := range m.deleted {
@@ -520,6 +708,9 @@ func (ex *c19Explorer) run(hist []int) mc.StepResult {
 		} else {
 			fmt.Fprintf(&sb, "%s:-,", metric)
 		}
+	}
+	if sn := x.snap; sn != nil { // what a later restart from the snapshot starts from
+		fmt.Fprintf(&sb, "|snap=%s|seq=%d|flood=%v", strings.Join(sn.lines, ";"), sn.seq, c19FloodKey(sn.flood, now))
 	}
 	key := sb.String()
 	ex.rep.Outcome(ex.cfg.name + key)
@@ -551,12 +742,29 @@ func TestVerifC19(t *testing.T) {
 		{"flood", max1g0, c19FloodOps(), mc.Pick(4, 6)},
 		{"flood", max2g0off, c19FloodOps(), mc.Pick(4, 5)},
 		{"bijection", roomy, c19BijectionOps(), mc.Pick(5, 7)},
+		{"restart", max2g0, c19RestartOps(), mc.Pick(4, 7)},
+		{"restart", max1g0, c19RestartOps(), mc.Pick(4, 6)},
+		{"restart", max2g1, c19RestartOps(), mc.Pick(0, 6)}, // thorough only
+		{"restart-bijection", roomy, c19RestartBijectionOps(), mc.Pick(4, 6)},
+	}
+	if only := os.Getenv("VERIF_C19_ONLY"); only != "" { // debugging aid only
+		rep.Cap("VERIF_C19_ONLY=" + only)
+		kept := parts[:0]
+		for _, p := range parts {
+			if strings.HasPrefix(p.name, only) {
+				kept = append(kept, p)
+			}
+		}
+		parts = kept
 	}
 	rep.Rule = "state-hashing BFS over every history up to the depth bound of: the full alphabet {getOrCreate (m1,k1..k4) (m2,k1) (m2,k5), put k1->5 / k3->1, delete [1] / [2,5], resetFlood m1 to default / 1 / 3, clock +1 step / +3 steps / +20 s}; the flood sub-alphabet {getOrCreate (m1,k1..k4) (m2,k5), resetFlood m1 to 1 / 3, clock +1 / +3 steps} and the bijection sub-alphabet {getOrCreate (m1,k1..k3) (m2,k1), put x2, delete x2}, each deeper; budget configurations StepSec 60 with MaxBudget 2 bonus 1 GlobalBudget 0 / 1, MaxBudget 1 bonus 1, and a roomy one for the bijection part. Non-trivial: the last request meets existing state (a key that is already mapped, an id or key that a put/delete hits, a creation refused or counted against a budget, a reset)"
 	rep.Assume("requests are issued sequentially (each is one atomic engine transaction); the in-memory last-created id is that of one process lifetime (no restart inside a history; restarts are C16's subject)")
 	rep.Assume("not asserted, because the property only bounds creation from above: that a request within the budget is granted (the reference accepts a flood-limit answer for any unmapped key); what put does to the pairs it names (only that the result is a bijection and unrelated pairs are untouched); whether an id displaced by put may be issued again")
 	rep.Assume("SQLite (amalgamation 3.53.0 supplied by /verif) is trusted")
 	for _, p := range parts {
+		if p.depth == 0 {
+			continue // part of the other tier only
+		}
 		p.depth = min(p.depth, capDepth)
 		name := p.name + "/" + p.cfg.name
 		ex := &c19Explorer{cfg: p.cfg, ops: p.ops, rep: rep}
